@@ -978,7 +978,7 @@ func runStaleMember(c *Case) {
 
 func init() {
 	props["C12"] = func(x *Ctx) {
-		x.rule = "histories of login / disconnect / invite-to-new-chat / invite / join / leave / decline / set-subject / send (public, private, emote, odd option values) and account edits (an administrator's TranSetUser flipping read-chat / send-chat / open-chat of an account, the disconnect-user bit untouched in 85 % of them; audiences are then judged by the account's current access) by 2-8 clients drawn from 9 accounts covering every combination of read-chat, send-chat and open-chat (plus an administrator); names and messages are arbitrary byte strings (ASCII, Mac-Roman, valid UTF-8 of width 2-4, truncated / overlong / surrogate sequences, NUL, CR) with lengths biased to 0,1,12..15 and 8150..9000; chat ids are the ones the server drew. Every handler result is compared with the Lean model's output for the same history and judged directly (audience computed from the membership implied by the history; text by a reference formatter). stale-member: a member disconnects, the id counter is moved past the wrap so that a newcomer is handed its id, then lines / subject / decline / join / leave traffic of that chat is judged (members exactly once, newcomer nothing, until it joins). non-trivial = the history contains a public line with both a reader and a non-reader connected, or a private line / notice with both a connected member and a connected non-member; distinct = distinct event lists"
+		x.rule = "histories of login / disconnect / invite-to-new-chat / invite / join / leave / decline / set-subject / send (public, private, emote, odd option values) and account edits (an administrator's TranSetUser flipping read-chat / send-chat / open-chat of an account, the disconnect-user bit untouched in 85 % of them; audiences are then judged by the account's current access) by 2-8 clients drawn from 9 accounts covering every combination of read-chat, send-chat and open-chat (plus an administrator); names and messages are arbitrary byte strings (ASCII, Mac-Roman, valid UTF-8 of width 2-4, truncated / overlong / surrogate sequences, NUL, CR) with lengths biased to 0,1,12..15 and 8150..9000; chat ids are the ones the server drew. Every handler result is compared with the Lean model's output for the same history and judged directly (audience computed from the membership implied by the history; text by a reference formatter). stale-member: a member disconnects, the id counter is moved past the wrap so that a newcomer is handed its id, then lines / subject / decline / join / leave traffic of that chat is judged (members exactly once, newcomer nothing, until it joins). chat-stalled-reader: 4-7 clients over real connections and the real processOutbox; after 4-9 events in which everybody reads (chats are built with the future non-readers in them) one or two clients stop reading — every Write to their connection blocks from the 1st, 2nd or 4th write on — while the others go on for 10-23 events (lines, subjects, joins, leaves, declines, invitations also to the non-readers, logins, departures); the reading clients' inboxes are judged while the others are blocked, the non-readers' after they were released. non-trivial = the history contains a public line with both a reader and a non-reader connected, or a private line / notice with both a connected member and a connected non-member; (chat-stalled-reader: during the stall at least one chat transaction was addressed to a blocked connection and one to a reading connection, and at least one write blocked); distinct = distinct event lists"
 		x.assume = []string{
 			"a single net.Conn.Write is atomic (end-to-end runs use an in-memory connection with that behaviour)",
 			"histories are sequential (one request is handled at a time); concurrent schedules are C14's subject",
@@ -1022,5 +1022,7 @@ func init() {
 		x.Add(&Family{Name: "chat-history", Quick: 3000, Thor: 40000, Run: runChatHistory})
 		x.Add(&Family{Name: "chat-e2e", Quick: 16, Thor: 400, Run: runChatE2E})
 		x.Add(&Family{Name: "stale-member", Quick: 60, Thor: 1500, Run: runStaleMember})
+		// wave d: one or two members of the audience stop reading (every Write to them blocks) — c12_stall.go
+		x.Add(&Family{Name: "chat-stalled-reader", Quick: 40, Thor: 600, Run: runChatStalled})
 	}
 }
